@@ -157,14 +157,12 @@ def net_tokens(net):
 
 
 def lean_ff_line(net):
-    # fuel: the value grows by >= 1 per round and is bounded by the capacity out of s; cap the fuel for
-    # 'infinite' capacities by the number of finite-capacity units + 2
-    finite = sum(c for u, v, c in net["edges"] if c < MAXSIZE // 4)
-    return " ".join(["ff"] + net_tokens(net) + [str(finite + len(net["edges"]) + 2)])
+    # `ffauto` runs the model with the fuel `ffFuel N` for which totality is proved (C08_ff_total)
+    return " ".join(["ffauto"] + net_tokens(net))
 
 
 def lean_flowcut_line(net, flow_items, cut):
-    toks = ["flowcut"] + net_tokens(net) + [str(len(flow_items))]
+    toks = ["flowcert"] + net_tokens(net) + [str(len(flow_items))]
     for u, v, f in flow_items:
         toks += [str(u), str(v), str(f)]
     toks += [str(len(cut))] + [str(x) for x in cut]
@@ -265,8 +263,22 @@ def call_mcm(b):
 
 
 def bip_tokens(b):
+    """<|X|> X... <|Y|> Y... <k> (key <len> nbrs...)*k  -- the dict G as passed to the implementation"""
+    G = bip_graph(b)
     toks = [str(len(b["X"]))] + [str(x) for x in b["X"]] + [str(len(b["Y"]))] + [str(y) for y in b["Y"]]
-    for x in b["X"]:
-        ys = b["adj"][str(x)]
-        toks += [str(len(ys))] + [str(y) for y in ys]
+    toks.append(str(len(G)))
+    for k, nb in G.items():
+        toks += [str(k), str(len(nb))] + [str(v) for v in nb]
     return toks
+
+
+def lean_mcm_line(b):
+    return " ".join(["mcm"] + bip_tokens(b))
+
+
+def lean_mcmcert_line(b, M, C):
+    toks = ["mcmcert"] + bip_tokens(b) + [str(len(M))]
+    for x, y in M:
+        toks += [str(x), str(y)]
+    toks += [str(len(C))] + [str(v) for v in C]
+    return " ".join(toks)
